@@ -2,8 +2,8 @@ package main
 
 import (
 	"go/constant"
-	"regexp"
 	"go/token"
+	"regexp"
 	"sort"
 	"strings"
 
@@ -30,6 +30,7 @@ func (c conj) list() []string {
 	sort.Strings(o)
 	return o
 }
+
 // has: some atom matches all patterns. Pattern language: "^!" as first pattern → the atom must be negated (otherwise it
 // must be positive); "$suffix" → the atom ends with suffix; anything else → substring.
 func (c conj) has(sub ...string) bool {
@@ -38,27 +39,84 @@ func (c conj) has(sub ...string) bool {
 		wantNeg = true
 		sub = sub[1:]
 	}
-	for a := range c {
-		if strings.HasPrefix(a, "!") != wantNeg {
-			continue
-		}
-		ok := true
-		for _, s := range sub {
-			if strings.HasPrefix(s, "$") {
-				if !strings.HasSuffix(a, s[1:]) {
+	for a0 := range c {
+		for _, a := range equivForms(a0) {
+			if strings.HasPrefix(a, "!") != wantNeg {
+				continue
+			}
+			ok := true
+			for _, s := range sub {
+				if strings.HasPrefix(s, "$") {
+					if !strings.HasSuffix(a, s[1:]) {
+						ok = false
+						break
+					}
+				} else if !strings.Contains(a, s) {
 					ok = false
 					break
 				}
-			} else if !strings.Contains(a, s) {
-				ok = false
-				break
 			}
-		}
-		if ok {
-			return true
+			if ok {
+				return true
+			}
 		}
 	}
 	return false
+}
+
+var equivCache = map[string][]string{}
+
+var cmpNeg = map[string]string{"<": ">=", "<=": ">", ">": "<=", ">=": "<", "==": "!=", "!=": "=="}
+var cmpMirror = map[string]string{"<": ">", "<=": ">=", ">": "<", ">=": "<=", "==": "==", "!=": "!="}
+
+// equivForms: the atom itself plus, when it is a (possibly negated) comparison "(L op R)", the equivalent spellings
+// obtained by pushing the negation into the operator and by swapping the operands: !(a <= b) ≡ (a > b) ≡ (b < a) ≡ !(b >= a).
+// A pattern written against one spelling of a guard therefore matches every spelling of the same guard.
+func equivForms(a string) []string {
+	if f, ok := equivCache[a]; ok {
+		return f
+	}
+	out := []string{a}
+	defer func() { equivCache[a] = out }()
+	neg := strings.HasPrefix(a, "!")
+	body := strings.TrimPrefix(a, "!")
+	if len(body) < 2 || body[0] != '(' || body[len(body)-1] != ')' {
+		return out
+	}
+	depth, opAt, opLen := 0, -1, 0
+	for i := 0; i < len(body); i++ {
+		switch body[i] {
+		case '(', '[', '{':
+			depth++
+		case ')', ']', '}':
+			depth--
+			if depth == 0 && i != len(body)-1 {
+				return out // not a single parenthesised expression
+			}
+		case ' ':
+			if depth == 1 && opAt < 0 {
+				for _, op := range []string{"<=", ">=", "==", "!=", "<", ">"} {
+					if strings.HasPrefix(body[i+1:], op+" ") {
+						opAt, opLen = i, len(op)
+						break
+					}
+				}
+			}
+		}
+	}
+	if opAt < 0 {
+		return out
+	}
+	l, op, r := body[1:opAt], body[opAt+1:opAt+1+opLen], body[opAt+2+opLen:len(body)-1]
+	pre, npre := "", "!"
+	if neg {
+		pre, npre = "!", ""
+	}
+	out = append(out,
+		npre+"("+l+" "+cmpNeg[op]+" "+r+")",
+		pre+"("+r+" "+cmpMirror[op]+" "+l+")",
+		npre+"("+r+" "+cmpMirror[cmpNeg[op]]+" "+l+")")
+	return out
 }
 
 type dnf []conj
@@ -254,7 +312,6 @@ func everyDisjunctHas(d dnf, alts ...[]string) (bool, string) {
 	return true, ""
 }
 
-
 // blockCond: DNF of the conditions under which control reaches block blk, merging over predecessors (back edges are
 // ignored); falls back to the dominator-based conjunction when the DNF grows beyond the cap.
 func (b *bform) blockCond(blk *ssa.BasicBlock, depth int) dnf {
@@ -366,7 +423,6 @@ func simplifyDNF(d dnf) dnf {
 	}
 	return out
 }
-
 
 var identRe = regexp.MustCompile(`[A-Za-z_][A-Za-z0-9_]*`)
 
